@@ -12,7 +12,7 @@ LEVEL = 'exploration'
 RULE = (
     'tickers `async for now in interval(p)` / `delay(p)` (also created some time before they are iterated) with p in {0, 1/8, 1, 5, 20}, 1-12 '
     'iterations whose body durations are <, = and > p (also zero), start times {0, 3/8, 1e6, 1e10, 2**45}, '
-    '1-4 tickers side by side, some inside until(time + D) / nested scopes, negative periods. '
+    '1-4 tickers side by side, some inside until(time + D | time >= T | flag set by another activity) / nested scopes - also cut off exactly at a tick that did not have to wait and followed by another ticker of the same activity in that time step -, negative periods. '
     'Oracle: arithmetic model over the generated body-duration sequence - tick times, yielded '
     'value == time.now, IntervalExceeded exactly at the first iteration request after a body run '
     'longer than p, ValueError for p < 0 - and between the end of one body run and the next '
@@ -60,10 +60,30 @@ def make_case(seed, index, tier):
                         'early': rng.choice([None, None, None, 0, 0.375, 1, max(period, 0) + 1]),
                         # after that many ticks the iterator is handed to a child activity
                         'handover': rng.choice([None, None, None, 1, 2])})
+    for ticker in tickers:
+        # what ends the enclosing until() block: a delay, a date, or a flag set by somebody else
+        ticker['deadline_kind'] = rng.choice(['delay', 'delay', 'date', 'flag'])
+        if ticker['deadline'] is not None and rng.random() < 0.5:
+            # when the block has ended the same activity goes on with another ticker, in the
+            # time step in which it left the first one
+            period = rng.choice([1, 2.5, 7, 10])
+            ticker['sequel'] = {
+                'name': ticker['name'] + '+', 'how': rng.choice(['interval', 'delay']),
+                'period': period, 'deadline': None,
+                'durations': [rng.choice([0, 0.5, 1, period]) for _ in range(rng.randint(2, 3))]}
+            if rng.random() < 0.5:
+                # ... and the first one is cut off exactly at a tick before which it did not
+                # have to wait (body runs of exactly one period / no period at all)
+                first = rng.choice([0, 1, 2, 5, 10])
+                step = first or rng.choice([1, 2])
+                ticker.update(period=first, early=None, offset=rng.choice([0, 1]), handover=None,
+                              durations=[step] * rng.randint(3, 6))
+                ticker['deadline'] = ticker['offset'] + step * rng.randint(1, len(ticker['durations']) - 1)
     if rng.random() < 0.04:
         # a ticker that only starts when time has reached infinity (every delay has passed):
         # it still ticks - at inf, letting the others run - and never spuriously overruns
         ticker = rng.choice(tickers)
+        ticker.pop('sequel', None)
         ticker.update(offset='inf', deadline=None, early=None, scoped=False)
         ticker['period'] = rng.choice([0, 1, 5, 'inf'])
         ticker['durations'] = [rng.choice([0, 0, 1, 'inf']) for _ in ticker['durations'][:4]]
@@ -71,6 +91,8 @@ def make_case(seed, index, tier):
         # an exact integer clock beyond float precision (e.g. nanosecond time stamps): integer
         # periods, body durations, offsets and deadlines only - the grid stays exact
         for ticker in tickers:
+            ticker.pop('sequel', None)
+            ticker['deadline_kind'] = 'delay'
             period = ticker['period'] = rng.choice([0, 1, 5, 1000])
             ticker['durations'] = [rng.choice([0, period, max(period - 1, 0), period + 1,
                                                period // 2]) for _ in ticker['durations']]
@@ -284,7 +306,21 @@ def run_case(case):
     ends = {spec['name']: None for spec in case['tickers']}
     begins = {}
     yields = {spec['name']: [] for spec in case['tickers']}
-    stats_early = [0, 0]
+    stats_early = [0, 0, 0]
+    for spec in [spec['sequel'] for spec in case['tickers'] if spec.get('sequel')]:
+        log[spec['name']] = []
+        ends[spec['name']] = None
+        yields[spec['name']] = []
+    flags = {spec['name']: usim.Flag() for spec in case['tickers']
+             if spec['deadline'] is not None and spec.get('deadline_kind') == 'flag'}
+
+    def setter(name, deadline):
+        async def switch():
+            await (time + deadline)
+            await flags[name].set()
+        coro = switch()
+        coro.__name__ = coro.__qualname__ = 'set-' + name
+        return coro
 
     def ticker(spec):
         name = spec['name']
@@ -341,9 +377,47 @@ def run_case(case):
             finally:
                 box.clear()
 
+        async def follow(seq):
+            box = []
+            try:
+                box.append((usim.interval if seq['how'] == 'interval' else usim.delay)(
+                    num(seq['period'])).__aiter__())
+                begins[seq['name']] = time.now
+                count, body_end = 0, None
+                try:
+                    while True:
+                        now = await box[0].__anext__()
+                        log[seq['name']].append((time.now, now, sess.n, body_end))
+                        duration = num(seq['durations'][count])
+                        if duration:
+                            await (time + duration)
+                        count += 1
+                        body_end = sess.n
+                        if count >= len(seq['durations']):
+                            ends[seq['name']] = ('done', time.now)
+                            return
+                except IntervalExceeded:
+                    ends[seq['name']] = ('IntervalExceeded', time.now)
+            finally:
+                box.clear()
+
+        def ending():
+            kind = spec.get('deadline_kind', 'delay')
+            if kind == 'date':
+                return time >= case['start'] + spec['deadline']
+            if kind == 'flag':
+                return flags[name]
+            return time + spec['deadline']
+
         async def run():
+            await first()
+            if spec.get('sequel'):
+                stats_early[2] += 1
+                await follow(spec['sequel'])
+
+        async def first():
             if spec['deadline'] is not None:
-                async with until(time + spec['deadline']):
+                async with until(ending()):
                     if spec['scoped']:
                         async with Scope() as scope:
                             scope.do(body())
@@ -360,17 +434,20 @@ def run_case(case):
         coro.__name__ = coro.__qualname__ = name
         return coro
 
-    outcome = sess.run(*[ticker(spec) for spec in case['tickers']], start=case['start'])
+    outcome = sess.run(*[setter(spec['name'], spec['deadline']) for spec in case['tickers']
+                         if spec['name'] in flags],
+                       *[ticker(spec) for spec in case['tickers']], start=case['start'])
     violations = [dict(v) for v in sess.violations if v['mechanism'].startswith('kernel-')]
     stats = {'ticks_checked': 0, 'exceeded_checked': 0, 'zero_period_ticks': 0,
              'cut_by_deadline': 0, 'value_errors': 0, 'activations': sess.n,
              'created_before_iteration': stats_early[0],
-             'handed_to_another_activity': stats_early[1]}
+             'handed_to_another_activity': stats_early[1],
+             'followed_by_another_ticker': stats_early[2]}
     if outcome[0] != 'ok':
         violations.append({'mechanism': 'c14:run-failed',
                            'msg': 'run() ended with %r' % (outcome[1],)})
     judged = 0
-    for spec in case['tickers']:
+    for spec in case['tickers'] + [spec['sequel'] for spec in case['tickers'] if spec.get('sequel')]:
         name = spec['name']
         begin = begins.get(name)
         if begin is None:
